@@ -10,7 +10,7 @@ Lemma setattr_agree : mem_s "py_setattr" translated = true ->
   if imm then Raise EUBXMessage else Ok (Tup [gnone; Tup []; Tup [Call "super.__setattr__" [name; value] []]]).
 Proof.
   intros Hin imm name value. first [untranslated Hin | clear Hin].
-  unfold py_setattr. rewrite ?truth_gbool. destruct imm; reflexivity.
+  all: unfold py_setattr. rewrite ?truth_gbool. destruct imm; reflexivity.
 Qed.
 
 Lemma delattr_agree : mem_s "py_delattr" translated = true ->
@@ -19,5 +19,5 @@ Lemma delattr_agree : mem_s "py_delattr" translated = true ->
   if imm then Raise EUBXMessage else Ok (Tup [gnone; Tup []; Tup [Call "super.__delattr__" [name] []]]).
 Proof.
   intros Hin imm name. first [untranslated Hin | clear Hin].
-  unfold py_delattr. rewrite ?truth_gbool. destruct imm; reflexivity.
+  all: unfold py_delattr. rewrite ?truth_gbool. destruct imm; reflexivity.
 Qed.
